@@ -777,6 +777,83 @@ func (sc *specCtx) call(e *CCall) Val {
 			return &Term{"(s-ref " + x.S + ")", SRef, nil}
 		}
 		return x
+	case "fcall":
+		// fcall(f, x): the predicate value f applied to x. For an opaque function
+		// parameter this is an uninterpreted application; where a concrete
+		// function is passed it is that function's contract.
+		fv := sc.eval(e.Args[0])
+		x := sc.solo(arg(1))
+		switch f := fv.(type) {
+		case *Term:
+			return &Term{vc.fapp(f.S, x), SBool, nil}
+		case *FuncVal:
+			cc := vc.eng.contractFor(f.Fn)
+			if cc == nil || cc.Inline || len(cc.Modifies) > 0 {
+				unsup("spec: fcall of %s needs a pure contract", f.Fn)
+			}
+			if strings.Contains(x.S, "?") {
+				unsup("spec: fcall with a bound variable argument")
+			}
+			n := &specCtx{vc: vc, st: sc.st, old: sc.st, vars: map[string]Val{}, bound: map[string]*Term{}, pkg: pkgOf(f.Fn), fn: f.Fn}
+			pt := f.Fn.Signature.Params().At(0).Type()
+			bindCall(n, f.Fn, cc, []Val{&Term{x.S, x.Sort, pt}})
+			r := vc.freshConst("fc_"+sanitize(f.Fn.Name()), f.Fn.Signature.Results().At(0).Type())
+			bindResults(n, cc, r)
+			for _, en := range cc.Ensures {
+				vc.assume(n.evalBool(en.Expr))
+			}
+			if cc.Assumed {
+				vc.trusted[f.Fn.String()+" (assumed contract)"] = true
+			} else {
+				vc.usedContracts[f.Fn.String()] = true
+			}
+			return r
+		}
+		unsup("spec: fcall of %T", fv)
+	case "frame":
+		// frame(): the function's own frame condition as a loop invariant: every
+		// heap location that existed at entry and is not named by the modifies
+		// clause still has its entry value
+		c := vc.contract
+		if c == nil {
+			return &Term{"true", SBool, nil}
+		}
+		n := *sc
+		n.st = sc.old
+		allowed := map[string][]string{}
+		for _, m := range c.Modifies {
+			locs, all := n.lvalues(m.Expr)
+			if all {
+				return &Term{"true", SBool, nil}
+			}
+			for _, l := range locs {
+				if l.ref == "" {
+					allowed[l.hv] = append(allowed[l.hv], "*")
+				} else {
+					allowed[l.hv] = append(allowed[l.hv], l.ref)
+				}
+			}
+		}
+		var parts []string
+		for _, h := range vc.heapVars {
+			if strings.HasPrefix(h, "G_") {
+				continue
+			}
+			whole := false
+			conds := []string{"(< (rid r) alloc0)", "(not (= r nil))"}
+			for _, r := range allowed[h] {
+				if r == "*" {
+					whole = true
+				}
+				conds = append(conds, "(not (= r "+r+"))")
+			}
+			cur, old := vc.heapGet(sc.st, h), vc.heapGet(sc.old, h)
+			if whole || cur == old {
+				continue
+			}
+			parts = append(parts, "(forall ((r Ref)) (! (=> "+and(conds...)+" (= (select "+cur+" r) (select "+old+" r))) :pattern ((select "+cur+" r))))")
+		}
+		return &Term{and(parts...), SBool, nil}
 	case "sarr":
 		// the underlying byte array of a string value (strings are array/offset/length triples)
 		x := arg(0)
@@ -789,7 +866,7 @@ func (sc *specCtx) call(e *CCall) Val {
 		// function entry, other than the backing arrays of the listed slices, is
 		// unchanged since entry (loop frame invariants for append-style code)
 		var hv string
-		conds := []string{"(< (rid r) alloc0)"}
+		conds := []string{"(< (rid r) alloc0)", "(not (= r nil))"}
 		for i := range e.Args {
 			x := arg(i)
 			if x.Sort != SSlice || x.T == nil {
